@@ -48,8 +48,9 @@ MODEL_SCOPE = ("modelled by hand and tied by the lex lane (not verified against 
 prop(
     "C01",
     ["LolHtml.Thm.C01"],
-    [{"lane": "lex", "n_quick": 4000, "n_thorough": 200000}],
-    LEX_RULE,
+    [{"lane": "lex", "n_quick": 4000, "n_thorough": 200000},
+     {"lane": "pass", "n_quick": 3000, "n_thorough": 60000, "impl_only": True}],
+    LEX_RULE + "; lane pass (implementation only): public HtmlRewriter in all 36 ASCII-compatible encodings, documents whose text the encoding round-trips, cuts anywhere incl. inside multi-byte characters, 6 observer handler sets",
     ["observing controller = tokens serialise to their raw bytes (the property's own round-trip exception for captured text), emission never disabled, nothing appended at document end",
      "runs that reach one of the model's explicit panic branches (Rust debug assertions / clamped slices) are not successful runs; their unreachability is C15's subject",
      MODEL_SCOPE],
